@@ -56,7 +56,8 @@ def showSt (s : St) (out : String) : String :=
     | some p => s!"{showAddr p.loc.address}>{showCand p.rem}"
   let rems := if s.remotes.isEmpty then "-" else ";".intercalate (s.remotes.map showCand)
   let pend := if s.pending.isEmpty then "-" else ";".intercalate (sortStrs (s.pending.map hex))
-  s!"{showState s.state}/{showNom s.nominated}/{sel}/{rems}/{pend}/{out}"
+  let ss := match s.selSock with | none => "-" | some .resolved => "udp" | some .stream => "tcp"
+  s!"{showState s.state}/{showNom s.nominated}/{sel}/{rems}/{pend}/{ss}/{out}"
 
 structure Cfg where
   st : St
@@ -87,24 +88,26 @@ def runCase (toks : List String) : String :=
     | [] => (if started then acc else showSt cfg.st "-" :: acc).reverse
     | t :: rest =>
       match fields t with
-      | ["cfg", role, st, latch, nom, uf, pw, mode] =>
-        match parseState st, unhex uf, unhex pw with
-        | some st, some uf, some pw =>
+      | ["cfg", role, st, latch, nom, uf, pw, mode, t0, disc, tmo, rp] =>
+        match parseState st, unhex uf, unhex pw, t0.toNat?, disc.toNat?, tmo.toNat? with
+        | some st, some uf, some pw, some t0, some disc, some tmo =>
           let s := { cfg.st with role := if role = "controlling" then .controlling else .controlled, state := st,
                                  latching := latch = "1", webrtc := mode = "webrtc",
-                                 nominated := if nom = "t" then some true else if nom = "f" then some false else none }
+                                 nominated := if nom = "t" then some true else if nom = "f" then some false else none,
+                                 now := t0, lastRx := 0, discThreshold := disc, connTimeout := tmo,
+                                 hasRemoteParams := rp = "1" }
           go { st := s, ufrag := uf, pwd := pw } rest acc started
-        | _, _, _ => ("bad-cfg" :: acc).reverse
-      | ["loc", f1, i1, p1, f2, i2, p2, typ, tcp, pas, prio] =>
+        | _, _, _, _, _, _ => ("bad-cfg" :: acc).reverse
+      | ["loc", f1, i1, p1, f2, i2, p2, typ, tcp, pas, prio, hs] =>
         match parseAddr3 f1 i1 p1, parseAddr3 f2 i2 p2, parseTyp typ, prio.toNat? with
         | some a, some b, some ty, some pr =>
-          let c : Cand := ⟨a, b, ty, tcp = "1", pas = "1", pr⟩
+          let c : Cand := ⟨a, b, ty, tcp = "1", pas = "1", pr, hs = "1"⟩
           go { cfg with st := { cfg.st with locals := cfg.st.locals ++ [c] } } rest acc started
         | _, _, _, _ => ("bad-loc" :: acc).reverse
       | ["rem", f1, i1, p1, typ, tcp, prio] =>
         match parseAddr3 f1 i1 p1, parseTyp typ, prio.toNat? with
         | some a, some ty, some pr =>
-          let c : Cand := ⟨a, a, ty, tcp = "1", false, pr⟩
+          let c : Cand := ⟨a, a, ty, tcp = "1", false, pr, false⟩
           go { cfg with st := { cfg.st with remotes := cfg.st.remotes ++ [c] } } rest acc started
         | _, _, _ => ("bad-rem" :: acc).reverse
       | ["sel", i, j] =>
@@ -123,12 +126,20 @@ def runCase (toks : List String) : String :=
         | some sock, some src, some bytes =>
           let acc := if started then acc else showSt cfg.st "-" :: acc
           let inp := classify realPrims cfg.ufrag cfg.pwd bytes
-          let (s', o) := step cfg.st sock src inp
+          let (s', o) := step { cfg.st with now := cfg.st.now + 1 } sock src inp
           let reply := match inp with
             | .request r => hex (replyBytes cfg.pwd r.tx src)
             | _ => "-"
           go { cfg with st := s' } rest (showSt s' (showOut o reply) :: acc) true
         | _, _, _ => ("bad-pkt" :: acc).reverse
+      | ["tick", tx] =>
+        match unhex tx with
+        | some tx =>
+          let acc := if started then acc else showSt cfg.st "-" :: acc
+          let (s', k) := tick { cfg.st with now := cfg.st.now + 1 } tx
+          let ks := match k with | .none => "ka=none" | .credentialed => "ka=cred" | .bare => "ka=bare"
+          go { cfg with st := s' } rest (showSt s' ks :: acc) true
+        | none => ("bad-tick" :: acc).reverse
       | _ => ("bad-token" :: acc).reverse
   let s0 : St := { role := .controlled, state := .new, remotes := [], locals := [], selected := none,
                    nominated := none, pending := [], latching := false, webrtc := true }
@@ -146,6 +157,12 @@ def handle (stream : String) (args : List String) : String :=
       | .response _ e => s!"response err={b01 e}"
       | .empty => "empty" | .data => "data" | .undecodable => "undecodable" | .indication => "indication"
     | _, _, _ => "bad-hex"
+  | "probe", [tx, h, same] =>
+    match unhex tx, unhex h with
+    | some tx, some b => match probeAccept tx b (same = "1") with
+      | some a => s!"some {match a with | .v4 ip p => s!"4,{hex ip},{p}" | .v6 ip p => s!"6,{hex ip},{p}"}"
+      | none => "none"
+    | _, _ => "bad-hex"
   | "vmi", [k, h] =>
     match unhex k, unhex h with
     | some k, some b => b01 (verifyMI realPrims k b)
